@@ -353,3 +353,4 @@ def run(prog, chk):
 
     from . import c02
     c02.text_field_rules(prog, chk, "R6", "R7")
+    c02.column_advance_rule(prog, chk, "R8")
